@@ -125,9 +125,17 @@ Definition cpr_partial_update (B active : nat) (ops : cpr_ops) (K' : crs) (updat
   then mkCprOps (cpr_fpp B (cpr_N (nrows K') active) (sort_rows K') false junk) (c_scatter ops) (c_app ops)
   else ops.
 
+(* apply(): as Composite.cpr_apply, with the last step  spmv(one, Scatter, xp, one, x)  as the
+   backend performs it: only the first nrows(Scatter) entries of x are updated (with a
+   block-valued matrix and active_rows < n the scatter matrix is shorter than x) *)
+Definition cpr_apply_keep (A Fpp Scatter : crs) (sprecond pprecond : vec -> vec) (f : vec) : vec :=
+  let x := sprecond f in
+  let rs := vsub f (mv A x) in
+  let xp := pprecond (mv Fpp rs) in
+  upd2 (fun s xi => xi + s) (mv Scatter xp) x.
 (* the two-stage operator with the components of a set-up (pprecond is built from c_app) *)
 Definition cpr_operator (K : crs) (ops : cpr_ops) (sprecond : vec -> vec) (pprecond : crs -> vec -> vec) (f : vec) : vec :=
-  cpr_apply K (c_fpp ops) (c_scatter ops) sprecond (pprecond (c_app ops)) f.
+  cpr_apply_keep K (c_fpp ops) (c_scatter ops) sprecond (pprecond (c_app ops)) f.
 
 (* ---- block value type (static_matrix<B,B> entries): init(..., std::false_type) ---- *)
 (* v = math::adjoint(K->val[j]) as a row-major array *)
